@@ -52,7 +52,15 @@ def chord_re(ctx, rule):
     try:
         pat = ast.literal_eval(node.args[0])
     except Exception:
-        raise AnalysisError(rule, "CHORD_RE pattern is not a string literal")
+        # assembled from named parts: "..." + _PART + "..." over module-level string constants
+        try:
+            from ..model import _const_eval
+
+            pat = _const_eval(node.args[0], m)
+        except Exception:
+            pat = None
+        if not isinstance(pat, str):
+            raise AnalysisError(rule, "CHORD_RE pattern is not a string literal or a concatenation of module-level string constants")
     # how is it used by the validator?
     s = ctx.S.get("chord.validate_chord_label")
     uses = [c for c in s.calls() if c.method in ("match", "fullmatch", "search") and c.base is not None and c.base.op == "glob" and c.base.a[0] == "chord.CHORD_RE"]
